@@ -29,11 +29,11 @@ pub const TEXT_SHAPES: [&str; 12] = [
 /// (suffix `@<n>k`), which turns "stack consumption grows with depth" into an observable crash
 /// long before 8 MiB would overflow, whatever the frame size of the build profile.
 pub const SMALL_STACK_APIS: [&str; 3] = ["iter@256k", "peeknext@256k", "pull+loader@256k"];
-pub const TREE_SHAPES: [&str; 3] = ["tree-seq", "tree-mapval", "tree-mapkey"];
+pub const TREE_SHAPES: [&str; 5] = ["tree-seq", "tree-mapval", "tree-mapkey", "tree-seq-mlstr", "tree-mapval-mlstr"];
 pub const TEXT_APIS: [&str; 7] = [
     "iter", "peeknext", "load", "lfs:Yaml", "lfs:YamlOwned", "lfs:MarkedYaml", "lfs:MarkedYamlOwned",
 ];
-pub const TREE_APIS: [&str; 5] = ["drop", "clone", "eq", "hash", "emit"];
+pub const TREE_APIS: [&str; 7] = ["drop", "clone", "eq", "hash", "emit", "emit:multiline", "emit:noncompact"];
 /// Wide (long, not deep) documents and shallow-but-closed flow nests: nothing may recurse per
 /// *element*, so the whole life cycle must succeed on the 8 MiB stack.
 pub const WIDE_SHAPES: [&str; 5] = ["wide-seq", "wide-map", "wide-flowseq", "wide-flowmap", "flow-closed-200"];
@@ -241,6 +241,7 @@ pub fn effective_depth(shape: &str, d: usize) -> usize {
         "mapnl" => d.min(3000),
         // inserting a deep node as a *key* hashes it: building is quadratic (and itself recursive)
         "tree-mapkey" => d.min(3000),
+        "tree-mapval-mlstr" => d.min(20_000),
         _ => d,
     }
 }
@@ -249,7 +250,7 @@ pub fn effective_depth(shape: &str, d: usize) -> usize {
 /// the depth of a mapping chain; cap that one combination so that a scenario stays under a few
 /// seconds. Sequence chains are emitted compactly (`- - - x`) and are not capped.
 pub fn effective_depth_api(shape: &str, api: &str, d: usize) -> usize {
-    if api == "emit" && shape == "tree-mapval" {
+    if api.starts_with("emit") && (shape == "tree-mapval" || shape == "tree-mapval-mlstr" || shape == "tree-seq-mlstr" || api == "emit:noncompact") {
         d.min(20_000)
     } else {
         effective_depth(shape, d)
@@ -266,11 +267,16 @@ impl std::fmt::Write for NullWriter {
 
 fn tree_for(shape: &str, d: usize) -> Yaml<'static> {
     let d = effective_depth(shape, d);
-    let mut n = Yaml::Value(Scalar::Integer(1));
+    let mut n = if shape.ends_with("-mlstr") {
+        // a multi-line string leaf (the emitter's literal-block path under multiline_strings)
+        Yaml::Value(Scalar::String("first line\nsecond line\n  indented\n".into()))
+    } else {
+        Yaml::Value(Scalar::Integer(1))
+    };
     for _ in 0..d {
         n = match shape {
-            "tree-seq" => Yaml::Sequence(vec![n]),
-            "tree-mapval" => {
+            "tree-seq" | "tree-seq-mlstr" => Yaml::Sequence(vec![n]),
+            "tree-mapval" | "tree-mapval-mlstr" => {
                 let mut m = saphyr::Mapping::new();
                 m.insert(Yaml::Value(Scalar::Integer(0)), n);
                 Yaml::Mapping(m)
@@ -409,7 +415,13 @@ fn scenario(shape: &str, depth: usize, api: &str) -> String {
             }
             _ => {
                 let mut out = NullWriter(0);
-                let r = YamlEmitter::new(&mut out).dump(&t);
+                let mut em = YamlEmitter::new(&mut out);
+                match api {
+                    "emit:multiline" => em.multiline_strings(true),
+                    "emit:noncompact" => em.compact(false),
+                    _ => {}
+                }
+                let r = em.dump(&t);
                 std::mem::forget(t);
                 match r {
                     Ok(()) => format!("OK emitted {} bytes", out.0),
@@ -687,7 +699,9 @@ pub fn key_of(s: &Scn) -> String {
         // nested mappings used as keys are hashed (recursively) when the loader inserts them
         return format!("block-keys/{}", s.api);
     }
-    format!("{}/{}", shape_class(&s.shape), s.api)
+    // the emitter options do not change its recursion: one finding, one key
+    let api = if s.api.starts_with("emit") { "emit" } else { s.api.as_str() };
+    format!("{}/{}", shape_class(&s.shape), api)
 }
 
 fn grid(cfg: &Config) -> Vec<Scn> {
